@@ -171,7 +171,7 @@ func TwistExtrude3D(sdf SDF2, height, twist float64) SDF3 {
 	s.extrude = TwistExtrude(height, twist)
 	// work out the bounding box
 	bb := sdf.BoundingBox()
-	l := bb.Max.Length()
+	l := bb.maxRadius()
 	s.bb = Box3{v3.Vec{-l, -l, -s.height}, v3.Vec{l, l, s.height}}
 	return &s
 }
@@ -198,7 +198,7 @@ func ScaleTwistExtrude3D(sdf SDF2, height, twist float64, scale v2.Vec) SDF3 {
 	// work out the bounding box
 	bb := sdf.BoundingBox()
 	bb = bb.Extend(Box2{bb.Min.Mul(scale), bb.Max.Mul(scale)})
-	l := bb.Max.Length()
+	l := bb.maxRadius()
 	s.bb = Box3{v3.Vec{-l, -l, -s.height}, v3.Vec{l, l, s.height}}
 	return &s
 }
